@@ -84,6 +84,12 @@ func checkC01(c *Ctx) {
 	c.Rule("C01-R30", "runes shown through the alternate character set: each glyph of the ACS table carries its own enter and exit sequence (a mode tracked across cells is undone behind the screen's back by the attribute reset, which leaves the alternate set on most terminals; = C17-R3)")
 	c.Expect("C01-R30", 60)
 	c.asRule("C17-R3", "C01-R30", func() { c17Acs(c, p) })
+	c.Rule("C01-R31", "nearest palette entry otherwise: the colour cache maps a colour to itself (the palette's identity entries) or to what FindColor answered; nothing else is pre-seeded (bright i+8 to basic i sends grey to black)")
+	c.Expect("C01-R31", 1)
+	checkColourCacheEntries(c, p, "C01-R31")
+	c.Rule("C01-R32", "the rune the application last set there, also after the window grew: SetContent stores what it is given (a wide rune in the last column is blanked when drawn, not when stored; = C08-R11)")
+	c.Expect("C01-R32", 2)
+	checkSetContentStoresWhatItIsGiven(c, p, "C01-R32")
 	get := func(name string) *ssa.Function {
 		fn := p.Fn("tcell:(*tScreen)." + name)
 		if fn == nil {
